@@ -83,6 +83,15 @@ fn main() {
         Some("check") | Some("worker") | Some("replay") => {
             std::process::exit(cli(&args));
         }
+        Some("dump") => {
+            // dump <property> <case_seed> [tier]
+            let scn = scenario_for(&args[2]).expect("property");
+            let seed: u64 = args[3].parse().unwrap();
+            let tier = args.get(4).and_then(|t| coord::Tier::from_name(t)).unwrap_or(coord::Tier::Quick);
+            std::env::set_var("VSIM_DUMP", "1");
+            let rec = scn.run_case(seed, tier);
+            eprintln!("log={:016x} issues={}", rec.log_hash, rec.issues.len());
+        }
         Some("w1try") => {
             let from: u64 = args[2].parse().unwrap();
             let to: u64 = args[3].parse().unwrap();
@@ -145,6 +154,7 @@ fn scenario_for(prop: &str) -> Option<Box<dyn coord::Scenario>> {
         "C01" => Some(Box::new(scen::w1::W1Scenario { prop: "C01" })),
         "C02" => Some(Box::new(scen::w1::W1Scenario { prop: "C02" })),
         "C03" => Some(Box::new(scen::w1::W1Scenario { prop: "C03" })),
+        "C04" => Some(Box::new(scen::w2::W2Scenario { prop: "C04" })),
         _ => None,
     }
 }
